@@ -46,6 +46,30 @@ pub fn poll_once<F: Fam, R: AsyncRead + Unpin>(
     Pin::new(&mut fut).poll(&mut cx)
 }
 
+/// A waker that counts its wake-ups: the scripted transports wake the waker they are handed before returning
+/// Pending, so a decoder that passes on some other waker than its caller's shows up as a Pending without a wake-up.
+pub struct CountingWaker(pub std::sync::atomic::AtomicUsize);
+
+impl std::task::Wake for CountingWaker {
+    fn wake(self: std::sync::Arc<Self>) {
+        self.0.fetch_add(1, std::sync::atomic::Ordering::SeqCst);
+    }
+    fn wake_by_ref(self: &std::sync::Arc<Self>) {
+        self.0.fetch_add(1, std::sync::atomic::Ordering::SeqCst);
+    }
+}
+
+/// poll_once with the caller's waker
+pub fn poll_once_with<F: Fam, R: AsyncRead + Unpin>(
+    state: &mut GenericPollPacketState<F::Hdr>,
+    reader: &mut R,
+    waker: &Waker,
+) -> Poll<PollOut<F>> {
+    let mut cx = Context::from_waker(waker);
+    let mut fut = GenericPollPacket::new(state, reader);
+    Pin::new(&mut fut).poll(&mut cx)
+}
+
 /// Poll (re-creating the future each time) until it is ready.
 pub fn poll_until_ready<F: Fam, R: AsyncRead + Unpin>(
     state: &mut GenericPollPacketState<F::Hdr>,
@@ -69,11 +93,38 @@ pub fn body_bytes(buf: Vec<MaybeUninit<u8>>) -> Vec<u8> {
 pub enum Tail {
     Eof,
     Kind(io::ErrorKind),
+    /// the same kind delivered the way a socket delivers it: io::Error::from_raw_os_error(errno)
+    Os(i32),
+}
+
+/// Linux errno whose io::ErrorKind is the kind with this FORMAT.md index
+fn errno_of_kind_idx(i: u64) -> Option<i32> {
+    Some(match i {
+        4 => 104,
+        5 => 32,
+        6 => 110,
+        8 => 103,
+        9 => 107,
+        10 => 13,
+        14 => 111,
+        15 => 98,
+        16 => 99,
+        _ => return None,
+    })
 }
 
 pub fn parse_tail(t: &str) -> PResult<Tail> {
     if t == "eof" {
         return Ok(Tail::Eof);
+    }
+    if let Some(n) = t.strip_prefix('o') {
+        let i = parse_num(n)?;
+        let errno = errno_of_kind_idx(i).ok_or_else(|| "bad-os-kind".to_owned())?;
+        // only meaningful where the platform maps the errno to that kind
+        if io::Error::from_raw_os_error(errno).kind() != cm::kind_by_idx(i)? {
+            return Err("errno-kind".to_owned());
+        }
+        return Ok(Tail::Os(errno));
     }
     match t.strip_prefix('k') {
         Some(n) => Ok(Tail::Kind(cm::kind_by_idx(parse_num(n)?)?)),
@@ -133,6 +184,7 @@ impl AsyncRead for ScriptReader<'_> {
             return match me.tail {
                 Tail::Eof => Poll::Ready(Ok(())),
                 Tail::Kind(k) => Poll::Ready(Err(io::Error::from(k))),
+                Tail::Os(n) => Poll::Ready(Err(io::Error::from_raw_os_error(n))),
             };
         }
         let n = rest.len().min(me.chunk).min(buf.remaining());
@@ -221,6 +273,7 @@ impl AsyncRead for SchedReader {
                 match me.tail {
                     Tail::Eof => Poll::Ready(Ok(())),
                     Tail::Kind(k) => Poll::Ready(Err(io::Error::from(k))),
+                    Tail::Os(n) => Poll::Ready(Err(io::Error::from_raw_os_error(n))),
                 }
             }
             Some(Atom::P) => {
